@@ -30,8 +30,11 @@ Section Bool.
      known of it is CAny: it answers every Advance *)
   Variable CAny : C -> Prop.
   Hypothesis Hany_adv : forall c n, CAny c -> 0 <= n -> exists r c', cadv c n = Ok (r, c') /\ CAny c'.
-  Hypothesis Hany_inv : forall c S lo, CInv c S lo -> CAny c.
-  Hypothesis Hany_fin : forall c S lo, CFin c S lo -> CAny c.
+  (* KS: the kinds of searcher that serve as should child (the disjunctions) *)
+  Variable KS : C -> Prop.
+  Hypothesis HKS_next : forall c r c', KS c -> cnext c = Ok (r, c') -> KS c'.
+  Hypothesis Hany_inv : forall c S lo, KS c -> 0 < lo -> CInv c S lo -> CAny c.
+  Hypothesis Hany_fin : forall c S lo, KS c -> CFin c S lo -> CAny c.
   (* Min() is a static property of a searcher *)
   Hypothesis Hmin_next : forall c r c', cnext c = Ok (r, c') -> cmin c' = cmin c.
   Hypothesis Hmin_adv : forall c n r c', cadv c n = Ok (r, c') -> cmin c' = cmin c.
@@ -595,7 +598,7 @@ Section Bool.
     b_init st = false /\ b_done st = false /\
     b_cm st = None /\ b_cs st = None /\ b_cmn st = None /\
     opt_new (b_must st) Sm /\ opt_new (b_should st) Ss /\ opt_new (b_mustnot st) Sn /\
-    match b_should st with Some sc => cmin sc = smin | None => True end /\
+    match b_should st with Some sc => cmin sc = smin /\ KS sc | None => True end /\
     (Sm <> None \/ Ss <> None).
 
   Definition bool_inv (st : bool_st C) (lo : Z) : Prop := bool_ok st lo \/ (bool_fresh st /\ lo = 0).
@@ -603,7 +606,7 @@ Section Bool.
   Lemma opt_next_new : forall child S cur, opt_new child S -> cur = None ->
     exists r child', opt_next C cnext child cur = Ok (r, child') /\
       (child = None <-> child' = None) /\
-      (forall ch ch', child = Some ch -> child' = Some ch' -> cmin ch' = cmin ch) /\
+      (forall ch ch', child = Some ch -> child' = Some ch' -> cmin ch' = cmin ch /\ (KS ch -> KS ch')) /\
       match child', S with
       | Some c', Some s => bounded N s /\ exact_post CInv CFin s 0 r c'
       | None, None => r = None
@@ -613,7 +616,8 @@ Section Bool.
     intros [c|] [s|] cur H ->; simpl in H; try contradiction.
     - destruct H as [HB HI]. destruct (Hnew c s HI) as [r [c' [E Hpost]]].
       exists r, (Some c'). simpl. rewrite E. simpl. split; [reflexivity|]. split; [split; discriminate|].
-      split; [|split; assumption]. intros a b Ha Hb. inversion Ha; inversion Hb; subst. eapply Hmin_next; eauto.
+      split; [|split; assumption]. intros a b Ha Hb. inversion Ha; inversion Hb; subst.
+      split; [eapply Hmin_next; eauto|intros HK; eapply HKS_next; eauto].
     - exists None, None. simpl. split; [reflexivity|]. split; [split; reflexivity|]. split; [|reflexivity].
       intros a b Ha. discriminate.
   Qed.
@@ -653,12 +657,15 @@ Section Bool.
           - unfold opt_sec_ok. destruct s' as [sc|]; destruct Ss as [ss|]; try contradiction; [|exact Hps].
             apply exact_post_sec. apply Hps.
           - unfold opt_any. destruct s' as [sc|]; destruct Ss as [ss|]; try contradiction; [|exact I].
+            assert (HK : KS sc).
+            { destruct (b_should st) as [sc0|] eqn:Esc; [|destruct Hns as [Hns _]; specialize (Hns eq_refl); discriminate].
+              apply (proj2 (Hmins sc0 sc eq_refl eq_refl)). apply Hmin. }
             destruct Hps as [_ Hps]. destruct rs as [m|]; simpl in Hps.
-            + eapply Hany_inv. apply Hps.
-            + eapply Hany_fin. apply Hps. }
+            + destruct Hps as [[_ [Hge _]] HI']. eapply Hany_inv; [exact HK| |exact HI']. lia.
+            + eapply Hany_fin; [exact HK|]. apply Hps. }
         destruct s' as [sc|]; [|exact I].
         destruct (b_should st) as [sc0|] eqn:Esc; [|destruct Hns as [Hns _]; specialize (Hns eq_refl); discriminate].
-        rewrite (Hmins sc0 sc eq_refl eq_refl). exact Hmin.
+        rewrite (proj1 (Hmins sc0 sc eq_refl eq_refl)). apply Hmin.
       + destruct s' as [sc|]; destruct Ss as [ss|] eqn:ESs; try contradiction.
         * destruct Hps as [HB Hps]. split; [apply exact_post_prim; assumption|]. split; [reflexivity|exact Hpm].
         * destruct Hne as [Hne|Hne]; congruence.
